@@ -593,15 +593,16 @@ Definition narrow (v : value) (c : cond) (pol : bool) : value :=
 (* visit_BoolOp visits its second operand in a sub-scope where x is already narrowed by the
    first one (by its negation for `or`) and then merges the sub-scopes back: the value of x the
    whole condition's constraint is applied to is V plus that narrowed copy *)
-Fixpoint boolop_merge (v : value) (c : cond) : value :=
+Fixpoint boolop_merge (v : value) (c : cond) {struct c} : value :=
   match c with
   | CNot c => boolop_merge v c
-  | CAnd a _ => v ++ narrow v a true
-  | COr a _ => v ++ narrow v a false
+  | CAnd a b => boolop_merge v a ++ boolop_merge (narrow v a true) b
+  | COr a b => boolop_merge v a ++ boolop_merge (narrow v a false) b
   | _ => v
   end.
 
-(* what `if <c>: ... else: ...` makes of x end to end (for and/or whose operands are not and/or) *)
+(* what `if <c>: ... else: ...` makes of x end to end; nested and/or operands merge their own
+   narrowed copies inside the sub-scope they are visited in *)
 Definition narrow_e2e (v : value) (c : cond) (pol : bool) : value :=
   constrain (boolop_merge v c) (if pol then cond_acon c else invert (cond_acon c)).
 
